@@ -4,7 +4,7 @@ import json, os, shutil, sys, glob
 VERIF = os.path.dirname(os.path.dirname(os.path.abspath(__file__)))
 res_dir = os.path.join(VERIF, '.work', 'seedres')
 rows = []
-for f in sorted(glob.glob(os.path.join(res_dir, 'C*_m*.json'))):
+for f in sorted(glob.glob(os.path.join(res_dir, 'C*_*m[0-9].json'))):
     base = os.path.basename(f)[:-5]
     pid, m = base.split('_')
     if m.startswith('r2'):
